@@ -77,6 +77,11 @@ Definition opt_apply {A} (o : option A) (d : dev) (f : A -> dev -> dev) : dev :=
   match o with Some a => f a d | None => d end.
 
 (* _update_state, PropertiesResponse branch *)
+(* a legacy breeze property: active -> its mode; inactive -> clears only its own mode *)
+Definition legacy_breeze (own v : N) (d : dev) : dev :=
+  if negb (v =? 0) then d <| d_breeze := own |>
+  else if d_breeze d =? own then d <| d_breeze := BreezeMode_OFF |> else d.
+
 Definition update_from_props (d : dev) (p : pdict) : dev :=
   let d := opt_apply (pdict_get p PropertyId_SWING_LR_ANGLE) d
              (fun v d => d <| d_hangle := get_from_value SwingAngle_values SwingAngle_DEFAULT v |>) in
@@ -88,10 +93,8 @@ Definition update_from_props (d : dev) (p : pdict) : dev :=
   let d := match pdict_get p PropertyId_BREEZE_CONTROL with
            | Some v => d <| d_breeze := if mem v BreezeMode_values then v else BreezeMode_OFF |>
            | None =>
-             let d := opt_apply (pdict_get p PropertyId_BREEZE_AWAY) d
-                        (fun v d => d <| d_breeze := if v =? 0 then BreezeMode_OFF else BreezeMode_BREEZE_AWAY |>) in
-             opt_apply (pdict_get p PropertyId_BREEZELESS) d
-                        (fun v d => d <| d_breeze := if v =? 0 then BreezeMode_OFF else BreezeMode_BREEZELESS |>)
+             let d := opt_apply (pdict_get p PropertyId_BREEZE_AWAY) d (legacy_breeze BreezeMode_BREEZE_AWAY) in
+             opt_apply (pdict_get p PropertyId_BREEZELESS) d (legacy_breeze BreezeMode_BREEZELESS)
            end in
   opt_apply (pdict_get p PropertyId_IECO) d (fun v d => d <| d_ieco := negb (v =? 0) |>).
 
